@@ -46,7 +46,7 @@ def _pair(args):
         res = []
         for grid in (ref, shifted) + ((generic,) if generic is not None else ()):
             obj, fp, tab = sdrv.build_object(cfg)
-            pmin = float(np.asarray(tab["pressure"])[1])
+            pmin = float(np.sort(np.asarray(tab["pressure"], dtype=float))[1])
             sched = sdrv.make_schedule(cfg.get("sched", "none"), len(grid), cfg["pf"], cfg["pi"], max(pmin, 0.05 * cfg["pf"]),
                                        np.random.default_rng(cfg["seed"] + 1)) if cfg["kind"] == "single" else None
             with warnings.catch_warnings():
